@@ -231,7 +231,6 @@ theorem keep_estep {s s' : St} (st : EStep s s') : Keep s s' := by
     unfold St.incReg
     exact keep_mapFrames _ s (fun _ => rfl) (fun _ => rfl) (fun _ => rfl) (fun _ => rfl)
   | emit i _ _ _ _ hr => exact keep_push i s hr
-  | branch i _ _ _ _ hr => exact keep_push i s hr
   | incEmit i hw _ _ _ =>
     refine Keep.trans ?_ (keep_push i _ (isRet_of_writes hw))
     unfold St.incReg
@@ -259,6 +258,11 @@ theorem KB.refl (s : St) : KB s s := ⟨Keep.refl s, rfl⟩
 theorem KB.trans {a b c : St} (h1 : KB a b) (h2 : KB b c) : KB a c := ⟨h1.1.trans h2.1, h2.2.trans h1.2⟩
 theorem kb_esteps {s s' : St} (h : ESteps s s') : KB s s' := ⟨keep_esteps h, h.inner_len⟩
 theorem kb_push (i : Instr) (s : St) (hr : i.isRet = false) : KB s (s.push i) := ⟨keep_push i s hr, (push_fields i s).2⟩
+theorem kb_bsteps {s s' : St} (h : BSteps s s') : KB s s' := by
+  obtain ⟨s1, h1, rfl | ⟨i, rfl, _, _, _, _, hr⟩⟩ := h
+  · exact kb_esteps h1
+  · exact (kb_esteps h1).trans (kb_push i s1 hr)
+
 theorem kb_pushVia (k : Nat) (i : Instr) (s : St) (hr : i.isRet = false) : KB s (s.pushVia k i) :=
   ⟨keep_pushVia k i s hr, (pushVia_fields k i s).2⟩
 theorem kb_probeLabel (stem : Name) (s : St) : KB s (s.probeLabel stem).2 := ⟨keep_probeLabel stem s, (probeLabel_fields stem s).2⟩
@@ -287,13 +291,13 @@ theorem keep_ifPrologue (g : Globals) (cond : IfCond) (dup isElse : Bool) (label
   cases labelEnd with
   | some l =>
     dsimp only
-    exact up (up h3 (kb_esteps (esteps_ifCondCalc g cond lb le l isElse s3))) (kb_push _ _ rfl)
+    exact up (up h3 (kb_bsteps (esteps_ifCondCalc g cond lb le l isElse s3))) (kb_push _ _ rfl)
   | none =>
     dsimp only
     have h4 := up h3 (kb_probeLabel "if_end".toList s3)
     generalize s3.probeLabel "if_end".toList = p3 at h4
     obtain ⟨ln, s4⟩ := p3
-    exact up (up h4 (kb_esteps (esteps_ifCondCalc g cond lb le ln isElse s4))) (kb_push _ _ rfl)
+    exact up (up h4 (kb_bsteps (esteps_ifCondCalc g cond lb le ln isElse s4))) (kb_push _ _ rfl)
 
 theorem keep_ifAfterBody (isElse r : Bool) (lElse lEnd : Name) (s : St) : Keep s (ifAfterBody isElse r lElse lEnd s).2 := by
   unfold ifAfterBody
